@@ -171,6 +171,10 @@ func (m *MethodEvaluator) makeNextArg(nextT *base.T) (*base.T, error) {
 	var err error
 
 	for {
+		if nextT == nil {
+			break
+		}
+
 		if m.isSkipT(nextT) {
 			nextT, err = m.parser.Read()
 			if err != nil {
@@ -368,6 +372,10 @@ func collectArgs(
 		t, err := m.parser.Read()
 		if err != nil {
 			return argTs, err
+		}
+
+		if t == nil {
+			break
 		}
 
 		if m.isNotArgT(methodT, argTs, t) {
